@@ -64,6 +64,7 @@ class Contract:
         self.box_dyn = []
         self.map_collect = None
         self.into_collect = None
+        self.instantiate = {}
         self.let_types = {}
         self.rename_types = {}
         self.loop_iter = {}
@@ -136,6 +137,10 @@ def parse_contracts(path):
             last = None
         elif word == 'chars_iters':
             cur.chars_iters = rest.split()
+            last = None
+        elif word == 'instantiate':
+            pv, pty = rest.split(None, 1)
+            cur.instantiate[pv] = pty.strip()
             last = None
         elif word == 'into_collect':
             cur.into_collect = rest.strip()
@@ -1040,6 +1045,23 @@ class Assembler:
             head_clean, nsub = re.subn(pat, an, head_clean)
             if nsub:
                 self.rewrites.append({'rule': 'R19', 'where': '%s:%d' % (c.src, fn_line), 'text': '%s -> %s (alias declared in %s)' % (atext, an, arel)})
+        for pv, pty in c.instantiate.items():
+            # R18 (explicit form): the generic parameter `<pv>: impl IntoIterator<..>` is instantiated at the type named by the contract
+            # (the type its in-crate caller passes)
+            m = re.search(r'\b%s\s*:\s*impl\s+IntoIterator\s*<' % re.escape(pv), head_clean)
+            if not m:
+                raise ExtractError('lost anchor: fn %s: parameter %s: impl IntoIterator<..> not found' % (key, pv))
+            depth, k = 1, m.end()
+            while k < len(head_clean) and depth:
+                ch = head_clean[k]
+                if ch == '<':
+                    depth += 1
+                elif ch == '>' and head_clean[k - 1] != '-':
+                    depth -= 1
+                k += 1
+            old_t = head_clean[m.start():k]
+            head_clean = head_clean[:m.start()] + '%s: %s' % (pv, pty) + head_clean[k:]
+            self.rewrites.append({'rule': 'R18', 'where': '%s:%d' % (c.src, fn_line), 'text': '%s -> %s: %s' % (re.sub(r'\s+', ' ', old_t), pv, pty)})
         # R18: a parameter `impl IntoIterator<Item = T>` is instantiated at `Vec<T>` (Verus cannot establish the iterator-protocol
         # invariants of a `for` loop over an abstract iterator type; over `Vec<T>` it can).  The loop body is verified for every
         # finite sequence of items; what is dropped is an argument iterator with side effects of its own or without end.
@@ -1172,6 +1194,8 @@ class Assembler:
             for lv, lty in c.let_types.items():
                 # R15: type ascription on a `let` whose type verus! cannot infer (rustc re-checks the ascribed type)
                 b, n15 = re.subn(r'\blet\s+(mut\s+)?%s\s*=' % re.escape(lv), lambda m: 'let %s%s: %s =' % (m.group(1) or '', lv, lty), b)
+                if n15 == 0 and re.search(r'\blet\s+(mut\s+)?%s\s*:' % re.escape(lv), b):
+                    continue  # the source already ascribes a type: nothing to add
                 if n15 != 1:
                     raise ExtractError('lost anchor: fn %s: let %s occurs %d times' % (key, lv, n15))
                 log.append({'rule': 'R15', 'where': '%s:%d' % (c.src, base_line), 'text': 'let %s: %s' % (lv, lty)})
